@@ -14,6 +14,7 @@ import copy
 import random
 
 from vmon import env  # noqa: F401
+from vmon.suitemon import suite_case
 from vmon.simkit import Top, Mon, spell_features
 from vmon.sanitize import StepCounter, StepBound, judge_exception
 from vmon.models.csrmux import f3_unsatisfiable
@@ -57,6 +58,8 @@ def n_cases(tier):
 
 
 def gen_case(rng, tier, idx):
+    if idx == 0:
+        return {"suite": True}     # the repository\'s own test-suite under the monitors (vmon/suitemon.py)
     kind = KINDS[idx % len(KINDS)]
     case = {"kind": kind, "order": rng.choice(["rr", "rsr", "srr", "rrs"])}
     if kind == "mux":
@@ -414,6 +417,8 @@ def elaborate_twin(twin, mon):
 
 
 def run_case(case):
+    if case.get("suite"):
+        return suite_case(Mon(), ['C19'], ['C19_designs_elaborated_twice_before_simulation'])
     rng = random.Random(case["stim_seed"])
     mon = Mon()
     kind = case["kind"]
